@@ -591,7 +591,7 @@ def _buf_history(rng):
                 nxt[p] += 1
             else:
                 x = rng.randrange(3)        # the same element pushed again must come out again
-            c.append("%s %d %d" % ("push" if rng.chance(0.5) else "pushm", p, x))
+            c.append("%s %d %d" % (rng.pick(["push", "pushm", "pushl"]), p, x))
         elif r < 0.56:
             # a push during which the next allocation fails (bad_alloc): nothing may change, size()/empty() included
             c.append("push_fail %d %d" % (rng.randrange(4), 90 + rng.randrange(5)))
@@ -662,7 +662,7 @@ def nontrivial(case):
     pushes = 0
     for l in case:
         w = l.split()[0]
-        if w in ("push", "pushm", "assign", "assignz", "assign_fail"):
+        if w in ("push", "pushm", "pushl", "assign", "assignz", "assign_fail"):
             pushes += 1
         elif w in ("consume", "update") and pushes >= 2:
             return True
